@@ -44,8 +44,14 @@ def r1_shutdown_postdominates(ctx):
         if not entered:
             continue
         sh = [e for e in p.effects if is_call(e, qual=f"{BR}.shutdown")]
-        if p.exit[0] == "raise":
+        src = [e for e in p.effects if e.kind == "raise" and e.data.get("from_call")]
+        if src:
             n_exc += 1
+            if p.exit[0] != "raise":
+                ctx.violation("C03.R1", fi.qual, loc(fi), "controller failure propagates",
+                              f"an exception raised by {src[0].data['from_call'].rsplit('.', 1)[-1]} inside the controller loop is swallowed: run() returns normally, "
+                              f"so a failed run looks like a successful one")
+                return
         if not sh:
             ctx.violation("C03.R1", fi.qual, loc(fi), "shutdown on every exit",
                           f"there is a path through the controller loop that ends ({p.exit[0]}) without bridge.shutdown(): {p.cond_text()[:300]}")
